@@ -30,6 +30,7 @@ verus! {
 //@include spec/api.rs
 //@include spec/names.rs
 //@include spec/plain.rs
+//@include spec/indep.rs
 //@fmtfns
 
 //@assume eval_node
@@ -49,6 +50,16 @@ verus! {
 //@verify model_check_multiple_formulae_dirty
 //@verify _model_check_formula_dirty
 //@verify model_check_formula_dirty
+
+//@verify sanitize_colored_vertices
+//@verify _model_check_multiple_trees
+//@verify model_check_multiple_trees
+//@verify _model_check_tree
+//@verify model_check_tree
+//@verify _model_check_multiple_formulae
+//@verify model_check_multiple_formulae
+//@verify _model_check_formula
+//@verify model_check_formula
 
 fn main() {}
 } // verus!
